@@ -38,7 +38,15 @@ DECODER_RAISES = {
     'int': ['builtins.ValueError'],
     'decode': ['builtins.UnicodeDecodeError'],
     'unpack': ['struct.error'],
+    # inet_ntop raises ValueError for a packed address of the wrong length;
+    # not when its argument was cut to length by a struct format (see
+    # _fixed_by_struct)
+    'inet_ntop': ['builtins.ValueError'],
 }
+# parsers that accept more than the canonical textual form
+LENIENT_PARSERS = {'inet_aton': 'accepts 1-3 part, hex and octal forms and '
+                   'trailing text', 'gethostbyname': 'resolves names',
+                   'getaddrinfo': 'resolves names', 'ip_address': None}
 ALLOWED = {'builtins.AssertionError', LOCAL}
 BUFFER_BOUNDS = {'__read_pp_line': 107, '__read_pp_initial': 8}
 
@@ -53,7 +61,11 @@ def run(e: Engine, rep: Report):
     rep.rule('V3', 'handle(): AssertionError => invalid source address and '
              'the wrapped handler still runs; LocalConnection => return '
              'without it; signature constants agree')
+    rep.rule('V4', 'peer-supplied address text is validated by the strict '
+             'parser only (inet_pton); lenient parsers (inet_aton, name '
+             'resolution) are not used in the module')
     rep.tables.add('c18.DECODER_RAISES')
+    rep.tables.add('c18.LENIENT_PARSERS')
     rep.not_decided += ['that the parser returns exactly the encoded '
                         'addresses and stops exactly at CRLF (value-level)',
                         'IndexError/KeyError from subscripts (would need '
@@ -62,6 +74,7 @@ def run(e: Engine, rep: Report):
     v1(e, rep)
     v2(e, rep)
     v3(e, rep)
+    v4(e, rep)
     rep.floor('V1', 4, 'recv_into sites')
 
 
@@ -228,10 +241,28 @@ def v2(e: Engine, rep: Report):
     def pol(builder, call, target, frame):
         return target.func.module.name == MOD
 
+    def _fixed_by_struct(n: Node) -> bool:
+        """the packed-address argument is a name unpacked from
+        struct.unpack(<format>, ...): its length is fixed by the format"""
+        if len(n.ast.args) < 2 or not isinstance(n.ast.args[1], ast.Name):
+            return False
+        nm = n.ast.args[1].id
+        fn = n.frame.ctx.func.node
+        defs = [a for a in walk_own(fn) if isinstance(a, ast.Assign) and any(
+            isinstance(x, ast.Name) and x.id == nm
+            for t in a.targets for x in ast.walk(t))]
+        return bool(defs) and all(
+            isinstance(a.value, ast.Call) and
+            ast.unparse(a.value.func).endswith('unpack') and a.value.args and
+            isinstance(a.value.args[0], ast.Constant) for a in defs)
+
     def raises(builder, n: Node, res):
         if res is None or res.targets:
             return set()
-        return set(DECODER_RAISES.get(e.call_name(n), []))
+        nm = e.call_name(n)
+        if nm == 'inet_ntop' and _fixed_by_struct(n):
+            return set()
+        return set(DECODER_RAISES.get(nm, []))
     for cq, meth in entries:
         ctx = e.method_ctx(cq, meth)
         g = e.build(ctx, inline=pol, raises=raises, max_depth=5)
@@ -355,3 +386,34 @@ def v3(e: Engine, rep: Report):
               'does not fit the 8 initial bytes' % (pre8, sig12, v1pre),
               reason='8-byte prefix of the 12-byte signature',
               loc=hctx.func.loc())
+
+
+def v4(e: Engine, rep: Report):
+    m = e.p.modules.get(MOD)
+    strict = 0
+    for f in e.p.functions.values():
+        if f.module is not m:
+            continue
+        for n in walk_own(f.node):
+            if not (isinstance(n, ast.Call) and
+                    isinstance(n.func, (ast.Attribute, ast.Name))):
+                continue
+            nm = n.func.attr if isinstance(n.func, ast.Attribute) \
+                else n.func.id
+            if nm == 'inet_pton':
+                strict += 1
+            if nm in LENIENT_PARSERS:
+                rep.evaluations += 1
+                rep.bad('V4', f.qname, 'address text parsed with ' + nm,
+                        '%s %s: a malformed address field of a PROXY header '
+                        '(127.1, 0x7f.0.0.1, "10.0.0.1 junk") is accepted '
+                        'and rewritten into a valid-looking source address '
+                        'instead of yielding the invalid address'
+                        % (nm, LENIENT_PARSERS[nm] or 'is lenient'),
+                        loc=f.loc(n))
+    rep.evaluations += 1
+    if strict < 1:
+        rep.error('anchor vanished: inet_pton in ' + MOD)
+    else:
+        rep.ok('V4', MOD, 'strict address parser in use',
+               reason='%d inet_pton site(s), no lenient parser' % strict)
